@@ -287,7 +287,8 @@ def run_shard(spec):
     r = random.Random(spec["seed"])
     root = os.path.join(os.environ.get("VMON_SCRATCH", "/tmp"), "c18-%s" % spec.get("shard", 0))
     cmds = all_commands()
-    tools3 = [None, "nbdime", "meld"]
+    # (foreign tools include ones whose NAME contains "nbdime": a wrapper script, a fork - still not nbdime's to unset)
+    tools3 = [None, None, "nbdime", "nbdime", "meld", "meld", "nbdime-wrapper", "my-nbdime", "nbdime2"]
     if "replay" in spec:
         c = spec["replay"]["case"]
         seqs = [[tuple(x) for x in c["sequence"]]]
@@ -351,7 +352,7 @@ def run_shard(spec):
                     if (prev["local"], prev["global"], prev["attr"]) != (after["local"], after["global"], after["attr"]):
                         col.violation("enable-not-idempotent", "second %s changed the state again" % (cmd,), wit, "idempotence")
                 snaps.append(after)
-            foreign = st["merge.tool"] == "meld" or st["diff.guitool"] == "meld" or st["attributes"] in ("unrelated", "unrelated_nonl", "other_driver")
+            foreign = st["merge.tool"] not in (None, "nbdime") or st["diff.guitool"] not in (None, "nbdime") or st["attributes"] in ("unrelated", "unrelated_nonl", "other_driver")
             if changed_any and foreign:
                 col.nt(chash(scope, st, [list(c) for c in seq]))
                 col.count("scope:" + scope)
